@@ -162,14 +162,14 @@ static void fmt_tile(char *b, size_t cap, const int *v, int n)
 }
 
 /* ---------------- watchdog / crash ---------------- */
-static const case_t *cur_case; static const char *cur_tag;
+static const case_t *cur_case; static const char *cur_tag; static int main_done = 0; static const char *phase = "start";
 static void fatal_handler(int sig)
 {
     char cs[512], msg[160];
     if (cur_case) {
-        if (myrank == 0 || sig != SIGALRM) {
+        {
             case_str(cs, sizeof(cs), cur_case);
-            if (sig == SIGALRM) snprintf(msg, sizeof(msg), "the taskpool did not terminate within the watchdog delay (lost dependency / consumer never ran)");
+            if (sig == SIGALRM) snprintf(msg, sizeof(msg), "rank %d: the taskpool did not terminate within the 600 s watchdog delay (lost dependency / consumer never ran)", myrank);
             else snprintf(msg, sizeof(msg), "rank %d: the runtime crashed with signal %d while running a valid program of the family", myrank, sig);
             sx_violation(cur_tag, cs, msg);
             sx_report(cur_tag, 0, 0, 0, 0, 0, 0, 1, 0.0, "\"crashed\":true", NULL, 0);
@@ -184,7 +184,7 @@ static void fatal_handler(int sig)
 static void exit_hook(void)
 {
     char cs[512];
-    if (!cur_case) return;
+    if (!cur_case) { if (!main_done) fprintf(stderr, "C18: rank %d: exit() called from inside the runtime outside a case (phase: %s)\n", myrank, phase); return; }
     case_str(cs, sizeof(cs), cur_case);
     sx_violation(cur_tag, cs, "the process was terminated from inside the runtime while running a valid program of the family (MPI error abort: e.g. message truncation because sender and receiver datatypes disagree)");
     sx_report(cur_tag, 0, 0, 0, 0, 0, 0, 1, 0.0, "\"aborted\":true", NULL, 0);
@@ -224,7 +224,7 @@ static int run_case(const case_t *c, stat_t *st, char *msg, size_t mcap, int ver
     parsec_arena_datatype_t *slots[SLOT_COUNT];
     for (int s = 0; s < SLOT_COUNT; s++) slots[s] = &adt[c->bind[s] >= 0 ? c->bind[s] : T_F];
     parsec_taskpool_t *tp = c->st->mk(&A->super, &R->super, &adt_default, slots);
-    alarm(90);
+    alarm(600);
     parsec_context_add_taskpool(parsec, tp);
     parsec_context_start(parsec);
     parsec_context_wait(parsec);
@@ -456,7 +456,7 @@ int main(int argc, char **argv)
     atexit(exit_hook);
     { MPI_Errhandler eh; MPI_Comm_create_errhandler(mpi_error_hook, &eh); MPI_Comm_set_errhandler(MPI_COMM_WORLD, eh); MPI_Comm_set_errhandler(MPI_COMM_SELF, eh); }   /* inherited by the communicators parsec duplicates */
     int pargc = 1; char *pargv_s[2] = { argv[0], NULL }; char **pargv = pargv_s;
-    parsec = parsec_init(1, &pargc, &pargv);
+    phase = "parsec_init"; parsec = parsec_init(1, &pargc, &pargv); phase = "run";
     if (!parsec) { fprintf(stderr, "C18: parsec_init failed\n"); return 2; }
 
     if (replay_ok) {
@@ -471,9 +471,10 @@ int main(int argc, char **argv)
     } else run_box(&b);
     int v = sx_total_violations;
     if (world > 1) MPI_Bcast(&v, 1, MPI_INT, 0, MPI_COMM_WORLD);
-    types_fini();
-    parsec_fini(&parsec);
-    int fr = sx_finish();
-    MPI_Finalize();
+    int fr = sx_finish();            /* results are complete before the teardown */
+    phase = "types_fini"; types_fini();
+    phase = "parsec_fini"; parsec_fini(&parsec);
+    phase = "MPI_Finalize"; MPI_Finalize();
+    main_done = 1;
     return myrank == 0 ? fr : (v ? 1 : 0);
 }
